@@ -155,7 +155,7 @@ def invariants(m, fed):
             return f'abspos {mk.abspos} != bytes fed {fed}'
         tr, tl = getattr(mk, 'trest', None), getattr(mk, 'trest_len', None)
         if tr is not None:
-            if tl != len(tr) or not (mk.token.endswith(tr) or mk.boundary.endswith(tr)) or len(tr) >= len(mk.token) + 1 or not tr:
+            if (tl is not None and tl != len(tr)) or not (mk.token.endswith(tr) or mk.boundary.endswith(tr)) or len(tr) >= len(mk.token) + 1 or not tr:
                 return f'carried delimiter remainder {tr!r} (len field {tl}) is not a proper suffix of the delimiter'
     prev_end = 0
     for k, (name, (s, e)) in enumerate(m.markups):
